@@ -736,35 +736,38 @@ def r01_3(ctx: Ctx):
     bp = "bounds"
     ib = sn.nested.get("in_bounds")
     cr = sn.nested.get("create")
-    if ib is None or cr is None:
-        raise AnalysisError("sample_normal.in_bounds / create vanished")
-    xp = ib.params()[0]
-    rets = [r for r in body_walk(ib.node) if isinstance(r, ast.Return)]
+    if cr is None:
+        raise AnalysisError("sample_normal.create vanished")
     from ..core import _bool_atoms, bool_equiv
     from ..normalize import _expr_of_block
 
-    body = [x for x in ib.node.body if not (isinstance(x, ast.Expr) and isinstance(x.value, ast.Constant))]
-    E = _expr_of_block(body, ast.Constant(value=None), allow_dup=True)
-    st_ib = INCONCLUSIVE
-    why = "cannot reduce in_bounds to one boolean expression"
-    if E is not None:
-        E = _face_atoms(E, xp, bp)
-        want = ast.parse("BOUNDS_NONE or (LOWER_OK and UPPER_OK)", mode="eval").body
-        atoms = set()
-        _bool_atoms(E, atoms)
-        imp = bool_equiv(ast.BoolOp(op=ast.Or(), values=[ast.UnaryOp(op=ast.Not(), operand=E), want]), ast.Constant(value=True))
-        if imp is True:
-            st_ib = OK
-        elif imp is False and atoms <= {"BOUNDS_NONE", "LOWER_OK", "UPPER_OK", "WRONG_FACE", "SOME_LOWER_OK", "SOME_UPPER_OK", "SOME_WRONG_FACE"}:
-            st_ib, why = VIOLATION, f"in_bounds accepts points outside the box: `{norm(rets[-1].value)[:90] if rets else '?'}` does not imply all(x >= lower) and all(x <= upper)"
-        else:
-            why = f"cannot decide whether `{norm(rets[-1].value)[:90] if rets else '?'}` implies all(x >= lower) and all(x <= upper)"
-    obs.append(ctx.ob("R01.3", ib, rets[-1] if rets else ib.node, status=st_ib, detail="in_bounds implies all(x >= lower) and all(x <= upper)" if st_ib == OK else f"sample_normal: {why}", construct="in_bounds"))
-    # create(): every returned point has passed in_bounds since it was last assigned (typestate over create's CFG)
+    if ib is not None:
+        xp = ib.params()[0]
+        rets = [r for r in body_walk(ib.node) if isinstance(r, ast.Return)]
+        body = [x for x in ib.node.body if not (isinstance(x, ast.Expr) and isinstance(x.value, ast.Constant))]
+        E = _expr_of_block(body, ast.Constant(value=None), allow_dup=True)
+        st_ib = INCONCLUSIVE
+        why = "cannot reduce in_bounds to one boolean expression"
+        if E is not None:
+            E = _face_atoms(E, xp, bp)
+            want = ast.parse("BOUNDS_NONE or (LOWER_OK and UPPER_OK)", mode="eval").body
+            atoms = set()
+            _bool_atoms(E, atoms)
+            imp = bool_equiv(ast.BoolOp(op=ast.Or(), values=[ast.UnaryOp(op=ast.Not(), operand=E), want]), ast.Constant(value=True))
+            if imp is True:
+                st_ib = OK
+            elif imp is False and atoms <= {"BOUNDS_NONE", "LOWER_OK", "UPPER_OK", "WRONG_FACE", "SOME_LOWER_OK", "SOME_UPPER_OK", "SOME_WRONG_FACE"}:
+                st_ib, why = VIOLATION, f"in_bounds accepts points outside the box: `{norm(rets[-1].value)[:90] if rets else '?'}` does not imply all(x >= lower) and all(x <= upper)"
+            else:
+                why = f"cannot decide whether `{norm(rets[-1].value)[:90] if rets else '?'}` implies all(x >= lower) and all(x <= upper)"
+        obs.append(ctx.ob("R01.3", ib, rets[-1] if rets else ib.node, status=st_ib, detail="in_bounds implies all(x >= lower) and all(x <= upper)" if st_ib == OK else f"sample_normal: {why}", construct="in_bounds"))
+    # create(): every returned point has passed the box test since it was last assigned (typestate over create's CFG; the
+    # facts are per name: accepted by in_bounds(), or lower face / upper face tested directly, or bounds known to be None)
     from ..cfg import typestate
 
     cfg = ctx.cfg(cr)
     bad, unknown_ret, n_ret = [], [], 0
+    odd_tests = []
 
     def assigned(n):
         out = set()
@@ -774,28 +777,53 @@ def r01_3(ctx: Ctx):
                     out.add(x.id)
         return out
 
+    def passed(stt, v):
+        return ("IB", v) in stt or ("NONE", bp) in stt or (("LOWER_OK", v) in stt and ("UPPER_OK", v) in stt)
+
     def node_fn(n, stt):
         nonlocal n_ret
         if n.kind == "return" and n.ast is not None:
             v = n.ast.value if isinstance(n.ast, ast.Return) else n.ast
             n_ret += 1
             if isinstance(v, ast.Name):
-                if v.id not in stt:
+                if not passed(stt, v.id):
                     bad.append((n, stt))
             elif v is not None:
                 unknown_ret.append(n)
         a = assigned(n)
-        return [frozenset(stt - a)] if a else [stt]
+        return [frozenset(f for f in stt if f[1] not in a)] if a else [stt]
 
     def edge_fn(n, lab, stt):
-        if n.kind == "cond" and lab in (True, False) and isinstance(n.ast, ast.Call) and norm(n.ast.func) == "in_bounds" and len(n.ast.args) == 1 and isinstance(n.ast.args[0], ast.Name):
-            return frozenset(stt | {n.ast.args[0].id}) if lab else stt
-        return stt
+        if n.kind != "cond" or lab not in (True, False) or n.ast is None:
+            return stt
+        e = n.ast
+        if ib is not None and isinstance(e, ast.Call) and norm(e.func) == "in_bounds" and len(e.args) == 1 and isinstance(e.args[0], ast.Name):
+            return frozenset(stt | {("IB", e.args[0].id)}) if lab else stt
+        add = set()
+        for v in sorted({x.id for x in ast.walk(e) if isinstance(x, ast.Name)} - {bp, "np", "numpy", "all", "any", "bool"}) or [""]:
+            t = _face_atoms(e, v, bp)
+            neg = False
+            while isinstance(t, ast.UnaryOp) and isinstance(t.op, ast.Not):
+                t, neg = t.operand, not neg
+            truth = lab != neg
+            names = [t.id] if isinstance(t, ast.Name) else [x.id for x in t.values if isinstance(x, ast.Name)] if isinstance(t, ast.BoolOp) and isinstance(t.op, ast.And) and all(isinstance(x, ast.Name) for x in t.values) else []
+            for nm in names:
+                if nm == "BOUNDS_NONE" and truth and isinstance(t, ast.Name):
+                    add.add(("NONE", bp))
+                elif nm in ("LOWER_OK", "UPPER_OK") and truth:
+                    add.add((nm, v))
+            known = {"BOUNDS_NONE", "LOWER_OK", "UPPER_OK", "WRONG_FACE", "SOME_LOWER_OK", "SOME_UPPER_OK", "SOME_WRONG_FACE"}
+            seen_atoms = set()
+            _bool_atoms(t, seen_atoms)
+            if v and not (seen_atoms and seen_atoms <= known):
+                odd_tests.append((n, v))
+        return frozenset(stt | add) if add else stt
 
     typestate(cfg, [frozenset()], node_fn, edge_fn)
-    if bad:
+    ret_names = {(n.ast.value if isinstance(n.ast, ast.Return) else n.ast).id for n, _ in bad}
+    if bad and not any(v in ret_names for _, v in odd_tests):
         st_l = VIOLATION
-    elif unknown_ret or n_ret == 0:
+    elif bad or unknown_ret or n_ret == 0:
         st_l = INCONCLUSIVE
     else:
         st_l = OK
@@ -1110,7 +1138,7 @@ def r01_8(ctx: Ctx):
 RULES = [
     ("R01.1", r01_1, 10),
     ("R01.2", r01_2, 14),
-    ("R01.3", r01_3, 3),
+    ("R01.3", r01_3, 2),
     ("R01.4", r01_4, 7),
     ("R01.5", r01_5, 5),
     ("R01.6", r01_6, 1),
